@@ -49,7 +49,8 @@ def clamp_ok(order, v, x, do, cap):
         return True
     if term_eq(v, x) and order.le(do, x) and order.le(x, cap):
         return True
-    return False
+    # any other spelling (clamp, saturating_sub + max, ...): equality by case analysis over the min / max / satsub atoms
+    return order.eq_cases(v, full)
 
 
 @rule("C17-W1", "C17", 2, "rewind: every path from entry to the return passes through the store to the cursor (no arm returns without storing)")
